@@ -33,10 +33,13 @@ def direct_oracle(lines, outs):
                 bad.append((l, o, 'output not in 0..maxv-1'))
             if ns * m < 2 ** 53 and out != ns * m // P:
                 bad.append((l, o, 'output: expected exact floor %d' % (ns * m // P)))
+            # RFC 5170's reference expression, evaluated in binary64 by the interpreter (one multiplication, one division, truncation)
+            if m >= 1 and out != int(float(ns) * float(m) / float(P)):
+                bad.append((l, o, 'output: RFC 5170 reference expression gives %d' % int(float(ns) * float(m) / float(P))))
             s = int(kv['seed'])
     return bad
 
-def gen_script(rng, nseeds, nsteps):
+def gen_script(rng, nseeds, nsteps, nadv=3000):
     lines = []
     seeds = [1, 2, 16807, P - 1, P - 2, 0x7FFF, 0x10000, 1043618065] + [rng.randrange(1, P) for _ in range(nseeds)]
     maxvs = [1, 2, 3, 255, 50000, 12750000, P, 2 ** 31, 2 ** 22 + 1]
@@ -56,18 +59,29 @@ def gen_script(rng, nseeds, nsteps):
         lines.append('rand next %d' % P)
         lines.append('rand next %d' % (P - 1))
         lines.append('rand next %d' % (P + 1))
+    # adversarial pairs inside the range the matrix construction can request: states s' with s'*maxv within a few units of a
+    # multiple of 2^31-1 (the quotient is then within maxv/2^31 * 2^-... of an integer: any extra rounding shows)
+    inv16807 = pow(16807, P - 2, P)
+    for j in range(nadv):
+        m = rng.choice([rng.randrange(2 ** 22, 12750001), rng.randrange(2 ** 20, 12750001), rng.randrange(2, 12750001), 12750000])
+        t = rng.choice([1, 2, 3, 4, -1, -2, -3, -4])
+        s1 = (t * pow(m % P, P - 2, P)) % P
+        if s1 == 0: continue
+        s0 = (s1 * inv16807) % P
+        lines.append('rand srand %d' % s0)
+        lines.append('rand next %d' % m)
     return lines
 
 def run(res, tier, seed, gen_errs):
     rng = random.Random(seed)
     res.rule = ('obligations: theorems over the Lean translation of of_rand.c regenerated this run; correspondence: '
                 'srand/next scripts (fixed + seeded random seeds, maxv in {1,2,3,255,50000,12750000,2^31-1,...}) run on the '
-                'compiled C (ASan/UBSan) and on ofmodel (translated code with exact-rational round-to-nearest-even); '
+                'compiled C (ASan/UBSan) and on ofmodel (translated code with exact-rational round-to-nearest-even), plus adversarial (state, maxv) pairs with s\'*maxv within 4 of a multiple of 2^31-1 for maxv up to 12750000; oracle: Park-Miller by definition, exact floor below 2^53, and the reference expression evaluated in binary64; '
                 'non-trivial = distinct (state, maxv) pairs with a valid state')
     ok, log = common.check_lean(res, MODULE, THEOREMS)
     exe = common.build_harness('scalardrv', link_lib=False)
     nseeds, nsteps = (12, 400) if tier == 'quick' else (200, 2000)
-    lines = gen_script(rng, nseeds, nsteps)
+    lines = gen_script(rng, nseeds, nsteps, 3000 if tier == 'quick' else 200000)
     if tier == 'thorough':
         lines += ['rand srand 1', 'rand walk 2147483646', 'rand next 1']
     rc, couts, cerr = common.run_harness(exe, lines)
@@ -113,6 +127,11 @@ def run(res, tier, seed, gen_errs):
             bad.append(('rand walk 2147483646', couts[-2], 'full period: state must return to 1'))
         res.exhaustive = True
     if bad:
+        # prefer a failing input inside the property's own range of maxv (1..255*50000)
+        def in_range(b):
+            f = b[0].split()
+            return len(f) == 3 and f[1] == 'next' and f[2].isdigit() and 1 <= int(f[2]) <= 12750000
+        bad.sort(key=lambda b: 0 if in_range(b) else 1)
         l, o, why = bad[0]
         res.violation('c19:oracle:' + why.split(':')[0], 'of_rfc5170 on the real code: %s; line %r gave %r' % (why, l, o),
                       replay={'script': (lines[:lines.index(l) + 1] if l in lines else [l]) + (['rand next 12750000'] if 'srand' in l else []),
